@@ -4,7 +4,7 @@ import itertools, random
 from vlib import common as C
 
 LAYS = ["strided", "mortonT", "mortonF", "hilbert"]
-CTW = {"u64": 64, "u32": 32, "i32": 32}
+CTW = {"u64": 64, "u32": 32, "i32": 32, "u16": 16}
 CPP = C.VERIF / "harness" / "cpp"
 
 
